@@ -1,0 +1,28 @@
+//go:build verif
+
+package system
+
+// Contracts for the verif engine (/verif). Comment-only: no code is compiled
+// from this file with or without the tag.
+
+// Every request dequeued in a tick is either handed to the scheduler (whose coroutine answers it, see
+// AddOnRequest) or answered at once with a scheduler-queue-full error: exactly one of the two, for every
+// element of the batch; every dequeued completion has its callback invoked exactly once.
+//@ func (*System).Tick
+//@ props C12
+//@ nopanic C13
+//@ funcvalue DequeueCQE.*\.Callback$ records cqe_callback
+//@ funcvalue DequeueSQE.*\.Callback$ records sqe_callback
+//@ funcvalue ^s\.onRequest\[ records make_coroutine
+//@ funcvalue \.coroutine$ records make_background
+//@ elem DequeueCQE assume elem != nil && elem.Callback != nil
+//@ elem DequeueSQE assume elem != nil && elem.Callback != nil && elem.Submission != nil && elem.Submission.Tags != nil && has_key(s.onRequest, elem.Submission.Kind) && s.onRequest[elem.Submission.Kind] != nil && elem.Submission.Kind >= t_api.ReadPromise && elem.Submission.Kind <= t_api.Echo
+//@ elem ^s\.background$ assume elem != nil && elem.coroutine != nil
+//@ requires s != nil && s.config != nil && s.aio != nil && s.api != nil && s.scheduler != nil && s.onRequest != nil && s.metrics != nil && s.metrics.CoroutinesTotal != nil && s.metrics.CoroutinesInFlight != nil
+//@ requires s.config.SubmissionBatchSize > 0 && s.config.CompletionBatchSize > 0
+//@ loop-complete 1
+//@ loop-complete 3
+//@ site loop 1 backedge assert itercalls("cqe_callback") == 1
+//@ site loop 3 backedge assert itercalls("make_coroutine") == 1 && itercalls("sched_add") == 1
+//@ site loop 3 backedge assert iterres("sched_add", 1) ==> itercalls("sqe_callback") == 0
+//@ site loop 3 backedge assert !iterres("sched_add", 1) ==> itercalls("sqe_callback") == 1
